@@ -85,7 +85,11 @@ class JSONEncoder(json.JSONEncoder):
 
 def _load_docstring(obj_dict: dict) -> Docstring | None:
     if "docstring" in obj_dict:
-        return Docstring(**obj_dict["docstring"])
+        docstring = Docstring(**obj_dict["docstring"])
+        # The serialized value is already cleaned: cleaning it a second time could change it
+        # (when the first line is indented deeper than a following one).
+        docstring.value = obj_dict["docstring"]["value"]
+        return docstring
     return None
 
 
